@@ -750,7 +750,7 @@ func raceLeg(tier string, seed uint64, known map[string]core.KnownEntry, stats *
 	}
 	procs := []int{1, 4, 16}
 	// cold-start processes: fresh process, first workload concurrent before any sequential call
-	nCold := 12
+	nCold := 24
 	if tier == "thorough" {
 		nCold = 200
 	}
